@@ -7,7 +7,7 @@
  * By contract (values are opaque tokens): mpt_meta_new / mpt_meta_set create a
  * counting token metatype.
  * History: NSTEP steps; path (-DSEQ), operation and handle (-DOPS: assign /
- * remove / query, through the global configuration or the view rooted at
+ * remove / query / materialise the view's base node, through the global configuration or the view rooted at
  * VIEWBASE) of every step are fixed by the driver - a single symbolic operation
  * already makes the heap shape symbolic and the query does not finish (measured:
  * > 600 s) - the assigned values are symbolic.  After the history
@@ -100,6 +100,10 @@ static int h_gconv(MPT_INTERFACE(metatype) *m, MPT_INTERFACE(config) **c)
 {
 	return m->_vptr->convertable.convert((MPT_INTERFACE(convertable) *) m, MPT_ENUM(TypeConfigPtr), c);
 }
+static int h_gnode(MPT_INTERFACE(metatype) *m, MPT_STRUCT(node) **n)
+{
+	return m->_vptr->convertable.convert((MPT_INTERFACE(convertable) *) m, MPT_ENUM(TypeNodePtr), n);
+}
 static int under(int i, int j)   /* PT[i] == PT[j] or PT[i] lies beneath PT[j] */
 {
 	size_t lj = strlen(PT[j]);
@@ -127,7 +131,14 @@ void harness(void)
 	gm = mpt_config_global(0);
 	V_ASSERT(gm != 0, "process-wide configuration exists");
 	r = h_gconv(gm, &g);
+#ifdef VIEWOFF
+	/* the view's base handed over as the unconsumed rest of a longer path (non-zero offset) */
+	setpath(&p, "x." VIEWBASE);
+	r = mpt_path_next(&p);
+	V_ASSERT(r == 1 && p.off == 2, "first element consumed");
+#else
 	setpath(&p, VIEWBASE);
+#endif
 	vm = mpt_config_global(&p);
 	V_ASSUME(vm != 0);
 	r = h_gconv(vm, &v);
@@ -138,7 +149,15 @@ void harness(void)
 #ifdef OPS
 		static const int ops[NSTEP] = OPS;   /* driver-side case split: 0 assign, 1 remove, 2 query, 3 symbolic, +4 through the view */
 		op = ops[s] & 3;
-		if (op == 3) op = (int) V_IN_RANGE("op", 0, 2);
+		if (op == 3) {
+			/* materialise the view: asking it for its node creates the base path without a value */
+			MPT_STRUCT(node) *bn = 0;
+			r = h_gnode(vm, &bn);
+			V_ASSERT(r >= 0 && bn != 0, "the view offers its base node");
+			for (j = 0; j < NP; j++) if (under(1, j)) m_exists[j] = 1;
+			V_ASSERT(mpt_identifier_compare(&bn->ident, "b", 1) == 0, "base node carries the last base element's name");
+			continue;
+		}
 		i = seq[s];
 		via_view = i >= 4 && (ops[s] & 4);
 #else
